@@ -48,7 +48,9 @@ class Gen:
             kids = [['t', a], ['tab'], ['t', b]]; self.features.add('tab')
         elif x < .22 and self.profile != 'plain':
             a, b = t[:len(t) // 2], t[len(t) // 2:]
-            kids = [['t', a], [self.r.choice(['br', 'br', 'cr'])], ['t', b]]; self.features.add('break')
+            brk = [self.r.choice(['br', 'br', 'cr'])]; y = self.r.random()
+            kids = [['t', a], brk, ['t', b]] if y < .6 else [['t', t], brk] if y < .8 else [brk, ['t', t]] if y < .93 else [brk]      # in the middle / at the end / at the start / alone
+            self.features.add('break')
         elif x < .26 and self.profile != 'plain':
             kids = []; self.features.add('empty_run')
         else: kids = [['t', t]]
@@ -151,6 +153,9 @@ class Gen:
             if x < .7: stories.append({'kind': 0, 'blocks': self.blocks(self.r.randint(0, 2))}); self.features.add('header')
             if x > .5: stories.append({'kind': 0, 'hf': 'first', 'blocks': self.blocks(self.r.randint(1, 2))}); self.features.add('first_header')
         stories.append({'kind': 1, 'blocks': self.blocks(nparas or self.r.randint(1, 5))})
+        if self.profile == 'full' and self.r.random() < .12:       # a second section: the break sits in the pPr of the paragraph that ends the first one
+            cands = [b for b in stories[-1]['blocks'][:-1] if b['t'] == 'p']
+            if cands: self.r.choice(cands)['ppr'] = 5; self.features.add('section_break')
         if self.profile == 'full' and self.r.random() < .25:
             x = self.r.random()
             if x < .7: stories.append({'kind': 2, 'blocks': self.blocks(self.r.randint(1, 2))}); self.features.add('footer')
